@@ -35,6 +35,9 @@ enum Case {
     /// a chunk size announced by the peer to a session (server?), as the first message completed in
     /// an input call or after another one
     PeerChunk(u32, bool, bool),
+    /// a message with type id 1 and this 4-byte body handed to plain serialize() (not a chunk-size
+    /// change of the serializer: just a payload), followed by further messages
+    SerType1(u32),
 }
 
 const CHUNK_VALUES: [u32; 16] = [0, 1, 2, 3, 127, 128, 129, 65536, 0xFFFFFF, 0x1000000, 0x7FFF_FFFE, 0x7FFF_FFFF, 0x8000_0000, 0x8000_0001, 0xFFFF_FFFE, 0xFFFF_FFFF];
@@ -57,6 +60,9 @@ fn fixed_cases() -> Vec<Case> {
                 v.push(Case::PeerChunk(c, server, first));
             }
         }
+    }
+    for c in CHUNK_VALUES {
+        v.push(Case::SerType1(c));
     }
     for big in [1u64 << 32, (1u64 << 32) + 1, 1u64 << 40, u64::MAX >> 1, u64::MAX] {
         v.push(Case::DeserSet(big));
@@ -226,6 +232,28 @@ fn run(case: &Case, rng: &mut Rng, out: &mut Out) {
     let what = json!(format!("{:?}", case));
     let _cg = ClockGuard;
     match case {
+        Case::SerType1(v) => {
+            let r = lib_call(out, "ChunkSerializer::serialize(type-1 payload) and what follows", || what.clone(), || -> Result<(), String> {
+                let mut ser = ChunkSerializer::new();
+                let mut bytes = Vec::new();
+                let mut sent = Vec::new();
+                for (i, m) in [Msg { type_id: 1, msid: 0, ts: 0, data: v.to_be_bytes().to_vec() }, Msg { type_id: 9, msid: 1, ts: 40, data: (0..300u32).map(|x| x as u8).collect() }, Msg { type_id: 8, msid: 1, ts: 60, data: vec![1, 2, 3] }].into_iter().enumerate() {
+                    bytes.extend(ser.serialize(&crate::adapt::to_payload(&m), false, i == 0).map_err(|e| format!("{:?}", e))?.bytes);
+                    sent.push(m);
+                }
+                // the payload is a payload: the receiver is not told anything
+                let got = lib_decode_partitioned(&bytes, &[bytes.len()], &vec![None; sent.len()]).map_err(|e| e.0)?;
+                if got != sent {
+                    return Err("round trip differs".to_string());
+                }
+                Ok(())
+            });
+            match r {
+                Some(Ok(())) => out.count("in_range_value_honoured", 1),
+                Some(Err(e)) => out.violation("accepted-chunk-size-but-codec-does-not-work", json!({"error": e, "case": what})),
+                None => {}
+            }
+        }
         Case::PeerChunk(v, server, first) => {
             use crate::refs::chunk::{Encoder, Msg};
             use rml_rtmp::sessions::{ClientSession, ClientSessionResult, ServerSession, ServerSessionResult};
@@ -589,7 +617,7 @@ impl Check for C19 {
     }
     fn required_counters(&self, _tier: Tier) -> Vec<String> {
         let mut v = vec!["in_range_value_honoured".to_string(), "out_of_range_value_refused".into()];
-        for c in ["SerSet", "DeserSet", "ServerChunk", "ClientChunk", "ServerWindow", "ClientWindow", "PeerBandwidth", "BufferLength", "SerPayload", "ClientPayload", "ServerPayload", "AmfString", "AmfName", "StringCfg", "DeserSetWhileMessagesInFlight", "PeerChunk"] {
+        for c in ["SerSet", "DeserSet", "ServerChunk", "ClientChunk", "ServerWindow", "ClientWindow", "PeerBandwidth", "BufferLength", "SerPayload", "ClientPayload", "ServerPayload", "AmfString", "AmfName", "StringCfg", "DeserSetWhileMessagesInFlight", "PeerChunk", "SerType1"] {
             v.push(format!("class_{}", c));
         }
         v
